@@ -371,10 +371,10 @@ theorem needDelim_of_string (m : Machine) (c k : UInt8) (hc : c = 0x3A ∨ c = 0
         simp only [this, Bool.false_eq_true, if_false]; decide
 
 /-- one streaming ReadToken on unread buffer `u` with reader `es` against ReadToken on the whole input -/
-def ScanOk (o : VOpts) (st : TState) (u : Bytes) (es : List Event) : SRes → Prop
+def ScanOk (st : TState) (lexW : Nat → Bytes → TRes) (u : Bytes) (es : List Event) : SRes → Prop
   | .fault u' es' => u' ++ avail es' = u ++ avail es ∧ es'.length < es.length ∧ u.length ≤ u'.length
   | .res r start u' es' _ =>
-    r = TokenLoop.readToken o st (u ++ avail es) ∧ u' ++ avail es' = u ++ avail es ∧ es'.length ≤ es.length ∧
+    r = wholeWith st lexW (u ++ avail es) ∧ u' ++ avail es' = u ++ avail es ∧ es'.length ≤ es.length ∧
       u.length ≤ u'.length ∧
       (∀ n st', r = .tok n st' → start = wholeStart (u ++ avail es) ∧ start ≤ n ∧ n ≤ u'.length ∧ start < u'.length)
 
@@ -398,11 +398,11 @@ theorem drop_cons_of_lt (t : Bytes) (w : Nat) (h : w < t.length) : ∃ c vt, t.d
   | cons c vt => exact ⟨c, vt, rfl⟩
 
 /-- a LexOk on a grown buffer is a ScanOk of the call -/
-theorem scanOk_of_lexOk (o : VOpts) (st : TState) (u : Bytes) (es : List Event) (u1 : Bytes) (es1 : List Event) (pos : Nat)
+theorem scanOk_of_lexOk (st : TState) (lexW : Nat → Bytes → TRes) (u : Bytes) (es : List Event) (u1 : Bytes) (es1 : List Event) (pos : Nat)
     (S : SRes) (r : TRes) (hL : LexOk u1 pos es1 r S)
     (hT : u1 ++ avail es1 = u ++ avail es) (he : es1.length ≤ es.length) (hu : u.length ≤ u1.length)
-    (hr : r = TokenLoop.readToken o st (u ++ avail es)) (hs : pos = wholeStart (u ++ avail es))
-    (hlt : pos < u1.length) : ScanOk o st u es S := by
+    (hr : r = wholeWith st lexW (u ++ avail es)) (hs : pos = wholeStart (u ++ avail es))
+    (hlt : pos < u1.length) : ScanOk st lexW u es S := by
   cases S with
   | fault u' es' =>
     obtain ⟨h1, h2, h3⟩ := hL
@@ -424,9 +424,12 @@ theorem wholeStart_delim (t : Bytes) (c : UInt8) (rest : Bytes) (h : t.drop (Wir
     wholeStart t = Wire.consumeWhitespace t + 1 + Wire.consumeWhitespace rest := by
   simp [wholeStart, h, hc]
 
-theorem scanToken_ok (o : VOpts) (st : TState) (u : Bytes) (es : List Event) :
-    ScanOk o st u es (scanToken o st u es) := by
-  unfold scanToken
+theorem scanWith_ok (st : TState) (lex : Bytes → Nat → List Event → Bool → SRes) (lexW : Nat → Bytes → TRes)
+    (hlex : ∀ (u : Bytes) (pos : Nat) (es : List Event) (f : Bool) (c : UInt8) (vt : Bytes), u.drop pos = c :: vt →
+      LexOk u pos es (lexW pos ((c :: vt) ++ avail es)) (lex u pos es f))
+    (u : Bytes) (es : List Event) :
+    ScanOk st lexW u es (scanWith st lex u es) := by
+  unfold scanWith
   have hok := sWhitespace_ok u 0 es (Nat.zero_le _)
   cases hs : sWhitespace u 0 es with
   | fault u1 es1 => rw [hs] at hok; exact hok
@@ -441,7 +444,7 @@ theorem scanToken_ok (o : VOpts) (st : TState) (u : Bytes) (es : List Event) :
     | false =>
       simp only [Bool.not_false, if_true]
       refine ⟨?_, h2, h3, h4, by intro n st' h; simp at h⟩
-      unfold TokenLoop.readToken
+      unfold wholeWith
       simp only [← hw, hnf rfl]
     | true =>
       simp only [Bool.not_true, Bool.false_eq_true, if_false]
@@ -462,20 +465,20 @@ theorem scanToken_ok (o : VOpts) (st : TState) (u : Bytes) (es : List Event) :
         have hok2 := sWhitespace_ok vt 0 es1 (Nat.zero_le _)
         -- the whole-input ReadToken behind the delimiter
         have hRnil : (vt ++ avail es1).drop (Wire.consumeWhitespace (vt ++ avail es1)) = [] →
-            TokenLoop.readToken o st (u ++ avail es) =
+            wholeWith st lexW (u ++ avail es) =
               (if st.m.needDelim 0x22 != c then .err w .invalidChar
                else .err (w + 1 + Wire.consumeWhitespace (vt ++ avail es1)) .eof) := by
           intro h
-          unfold TokenLoop.readToken
+          unfold wholeWith
           simp only [← hw, hTd, hdel, if_true, h]
         have hRcons : ∀ c1 rest1, (vt ++ avail es1).drop (Wire.consumeWhitespace (vt ++ avail es1)) = c1 :: rest1 →
-            TokenLoop.readToken o st (u ++ avail es) =
+            wholeWith st lexW (u ++ avail es) =
               (if st.m.needDelim (normKind c1) != c then .err w .invalidChar
-               else lexToken o st (w + 1 + Wire.consumeWhitespace (vt ++ avail es1)) (c1 :: rest1)) := by
+               else lexW (w + 1 + Wire.consumeWhitespace (vt ++ avail es1)) (c1 :: rest1)) := by
           intro c1 rest1 h
-          unfold TokenLoop.readToken
+          unfold wholeWith
           simp only [← hw, hTd, hdel, if_true, h]
-        have hRbad : (st.m.needDelim 0x22 != c) = true → TokenLoop.readToken o st (u ++ avail es) = .err w .invalidChar := by
+        have hRbad : (st.m.needDelim 0x22 != c) = true → wholeWith st lexW (u ++ avail es) = .err w .invalidChar := by
           intro hb
           cases hx : (vt ++ avail es1).drop (Wire.consumeWhitespace (vt ++ avail es1)) with
           | nil => rw [hRnil hx]; simp [hb]
@@ -524,9 +527,9 @@ theorem scanToken_ok (o : VOpts) (st : TState) (u : Bytes) (es : List Event) :
             have hrest : (vt ++ avail es1).drop p = (c1 :: vt2) ++ avail es2 := by
               rw [← g2, List.drop_append_of_le_length (Nat.le_of_lt hplt), hd2]
             simp only [hd2]
-            have hR2 : TokenLoop.readToken o st (u ++ avail es) =
+            have hR2 : wholeWith st lexW (u ++ avail es) =
                 (if st.m.needDelim (normKind c1) != c then .err w .invalidChar
-                 else lexToken o st (w + 1 + p) ((c1 :: vt2) ++ avail es2)) := by
+                 else lexW (w + 1 + p) ((c1 :: vt2) ++ avail es2)) := by
               rw [hRcons c1 (vt2 ++ avail es2) (by rw [← hp]; exact hrest), ← hp]; rfl
             by_cases hb : (st.m.needDelim (normKind c1) != c) = true
             · simp only [hb, if_true]
@@ -536,28 +539,35 @@ theorem scanToken_ok (o : VOpts) (st : TState) (u : Bytes) (es : List Event) :
               have hdrop : (u1.take (w + 1) ++ v2).drop (w + 1 + p) = c1 :: vt2 := by
                 have h := List.drop_length_add_append (l₁ := u1.take (w + 1)) (l₂ := v2) p
                 rw [htk] at h; rw [h, hd2]
-              have hL := lexS_ok o st (u1.take (w + 1) ++ v2) (w + 1 + p) es2 (f1 || f2) c1 vt2 hdrop
-              refine scanOk_of_lexOk o st u es _ es2 (w + 1 + p) _ _ hL (hrebuild v2 es2 g2) (by omega) hu2len ?_ ?_ ?_
+              have hL := hlex (u1.take (w + 1) ++ v2) (w + 1 + p) es2 (f1 || f2) c1 vt2 hdrop
+              refine scanOk_of_lexOk st lexW u es _ es2 (w + 1 + p) _ _ hL (hrebuild v2 es2 g2) (by omega) hu2len ?_ ?_ ?_
               · rw [hR2]; simp [hb]
               · rw [wholeStart_delim _ c _ hTd' hdel, ← hw, ← hp]
               · simp [htk]; omega
       · have hdel' : (c == 0x3A || c == 0x2C) = false := by simpa using hdel
         simp only [hdel', Bool.false_eq_true, if_false]
-        have hR : TokenLoop.readToken o st (u ++ avail es) =
+        have hR : wholeWith st lexW (u ++ avail es) =
             (if st.m.needDelim (normKind c) != 0 then .err w .invalidChar
-             else lexToken o st w ((c :: vt) ++ avail es1)) := by
-          unfold TokenLoop.readToken
+             else lexW w ((c :: vt) ++ avail es1)) := by
+          unfold wholeWith
           simp only [← hw, hTd, hdel', Bool.false_eq_true, if_false]; rfl
         by_cases hb : (st.m.needDelim (normKind c) != 0) = true
         · simp only [hb, if_true]
           refine ⟨?_, h2, h3, h4, by intro n st' h; simp at h⟩
           rw [hR]; simp [hb]
         · simp only [hb, Bool.false_eq_true, if_false]
-          have hL := lexS_ok o st u1 w es1 f1 c vt hd
-          refine scanOk_of_lexOk o st u es u1 es1 w _ _ hL h2 h3 h4 ?_ ?_ ?_
+          have hL := hlex u1 w es1 f1 c vt hd
+          refine scanOk_of_lexOk st lexW u es u1 es1 w _ _ hL h2 h3 h4 ?_ ?_ ?_
           · rw [hR]; simp [hb]
           · rw [wholeStart_plain _ c _ hTd' hdel', ← hw]
           · exact hwlt
 
+
+theorem readToken_eq (o : VOpts) (st : TState) (r : Bytes) :
+    TokenLoop.readToken o st r = wholeWith st (lexToken o st) r := rfl
+
+theorem scanToken_ok (o : VOpts) (st : TState) (u : Bytes) (es : List Event) :
+    ScanOk st (lexToken o st) u es (scanToken o st u es) :=
+  scanWith_ok st (lexS o st) (lexToken o st) (lexS_ok o st) u es
 
 end JsonV.Model.Stream
